@@ -3,7 +3,6 @@ package object
 import (
 	"bytes"
 	"context"
-	"encoding/json"
 	"fmt"
 	"sort"
 	"strings"
@@ -292,31 +291,11 @@ func (m *Map) Size() int {
 }
 
 func (m *Map) Interface() interface{} {
-	result := make(map[string]any, len(m.items))
-	for k, v := range m.items {
-		result[k] = v.Interface()
-	}
-	return result
+	return m.interfaceVisit(&visit{})
 }
 
 func (m *Map) Equals(other Object) Object {
-	if other.Type() != MAP {
-		return False
-	}
-	otherMap := other.(*Map)
-	if len(m.items) != len(otherMap.items) {
-		return False
-	}
-	for k, v := range m.items {
-		otherValue, found := otherMap.items[k]
-		if !found {
-			return False
-		}
-		if !v.Equals(otherValue).(*Bool).value {
-			return False
-		}
-	}
-	return True
+	return NewBool(m.equalsVisit(other, &visit{}))
 }
 
 func (m *Map) RunOperation(opType op.BinaryOpType, right Object) Object {
@@ -398,7 +377,7 @@ func (m *Map) Cost() int {
 }
 
 func (m *Map) MarshalJSON() ([]byte, error) {
-	return json.Marshal(m.items)
+	return m.marshalVisit(&visit{})
 }
 
 func NewMap(m map[string]Object) *Map {
